@@ -73,9 +73,18 @@ type c10Listen struct {
 	ch chan *Stream
 	mk func(s *Stream) *c10Cb
 	cb chan *c10Cb
+	// the n-th OnNewStream call (1-based; 0 = never) holds the session's event loop until release is closed
+	blockAt int32
+	calls   int32
+	entered chan struct{}
+	release chan struct{}
 }
 
 func (l *c10Listen) OnNewStream(s *Stream) {
+	if n := atomic.AddInt32(&l.calls, 1); n == atomic.LoadInt32(&l.blockAt) {
+		close(l.entered)
+		<-l.release
+	}
 	cb := l.mk(s)
 	cb.stream = s
 	_ = s.SetCallbacks(cb)
@@ -111,6 +120,7 @@ type c10Obs struct {
 	PeerState     uint32 `json:"peer_state"`
 	PeerLocal     int    `json:"peer_local"`
 	PeerRemote    int    `json:"peer_remote"`
+	Ghost         bool     `json:"ghost"` // the server's table holds ANOTHER stream object under this id
 	States        []uint32 `json:"states"`
 }
 
@@ -121,7 +131,7 @@ func c10Pair(callback bool, mk func(s *Stream) *c10Cb) (client, server *Session,
 	ok := make(chan struct{})
 	sc := *conf
 	if callback {
-		l = &c10Listen{ch: make(chan *Stream, 16), mk: mk, cb: make(chan *c10Cb, 16)}
+		l = &c10Listen{ch: make(chan *Stream, 16), mk: mk, cb: make(chan *c10Cb, 16), entered: make(chan struct{}), release: make(chan struct{})}
 		sc.listenCallback = l
 	}
 	go func() {
@@ -269,6 +279,19 @@ func c10RunCase(c c10Case) c10Case {
 		asess, bsess = server, client
 		acb, bcb = scb, ccb
 	}
+	// active streams of a session, not counting a "ghost": a second stream object the server created under
+	// the same id for data that was still in flight when the server closed its stream (reported separately)
+	ghost := false
+	active := func(sess *Session) int {
+		n := sess.GetActiveStreamCount()
+		if sess == server {
+			if g := server.getStreamById(cs.id); g != nil && g != ss {
+				ghost = true
+				n--
+			}
+		}
+		return n
+	}
 	var states []uint32
 	sample := func() { states = append(states, atomic.LoadUint32(&A.state), atomic.LoadUint32(&B.state)) }
 	sample()
@@ -324,16 +347,12 @@ func c10RunCase(c c10Case) c10Case {
 		}
 		_ = A.Close()
 		close(release)
-	case "inflight-to-closed":
-		// A (the server) closes; B (the client) has not yet handled the notification and flushes once more
-		_ = A.Close()
-		_ = c10Flush(B, []byte{30, 31})
 	}
 	sample()
 	obs := &c.Obs
 	// ---- closing end A ----
 	okA := c10WaitFor(c10Wait, func() bool {
-		return atomic.LoadUint32(&A.state) == uint32(streamClosed) && asess.GetActiveStreamCount() == 0
+		return atomic.LoadUint32(&A.state) == uint32(streamClosed) && active(asess) == 0
 	})
 	_ = okA
 	sample()
@@ -344,7 +363,7 @@ func c10RunCase(c c10Case) c10Case {
 		_, err := A.BufferReader().ReadBytes(1)
 		obs.CloserRead = c20ErrClassT(err)
 	}
-	obs.CloserActive = asess.GetActiveStreamCount()
+	obs.CloserActive = active(asess)
 	obs.CloserState = atomic.LoadUint32(&A.state)
 	// ---- peer B ----
 	if c.Scenario != "both" {
@@ -357,22 +376,16 @@ func c10RunCase(c c10Case) c10Case {
 		}
 		sample()
 		obs.PeerFlush = c20ErrClassT(c10Flush(B, []byte{8}))
-		obs.PeerActive = bsess.GetActiveStreamCount()
+		obs.PeerActive = active(bsess)
 		_ = B.Close()
-		c10WaitFor(c10Wait, func() bool { return bsess.GetActiveStreamCount() == 0 })
-		obs.PeerActive2 = bsess.GetActiveStreamCount()
+		c10WaitFor(c10Wait, func() bool { return active(bsess) == 0 })
+		obs.PeerActive2 = active(bsess)
 	} else {
-		c10WaitFor(c10Wait, func() bool { return bsess.GetActiveStreamCount() == 0 })
+		c10WaitFor(c10Wait, func() bool { return active(bsess) == 0 })
 		obs.PeerFlush = c20ErrClassT(c10Flush(B, []byte{8}))
-		obs.PeerActive2 = bsess.GetActiveStreamCount()
+		obs.PeerActive2 = active(bsess)
 	}
 	sample()
-	if c.Scenario == "inflight-to-closed" {
-		// give the late data time to reach A's session
-		time.Sleep(20 * time.Millisecond)
-		c10WaitFor(500*time.Millisecond, func() bool { return asess.GetActiveStreamCount() == 0 })
-		obs.CloserActive = asess.GetActiveStreamCount()
-	}
 	obs.PeerState = atomic.LoadUint32(&B.state)
 	if callback {
 		// callbacks may still be in flight
@@ -381,6 +394,8 @@ func c10RunCase(c c10Case) c10Case {
 		obs.PeerLocal, obs.PeerRemote = int(atomic.LoadInt32(&bcb.local)), int(atomic.LoadInt32(&bcb.remote))
 	}
 	obs.States = states
+	_ = active(server)
+	obs.Ghost = ghost
 	// ---------------- oracle: the property clauses ----------------
 	// monotone (sampled)
 	for e := 0; e < 2; e++ {
@@ -395,6 +410,9 @@ func c10RunCase(c c10Case) c10Case {
 				prev = x
 			}
 		}
+	}
+	if ghost {
+		or["ghost: data in flight to a stream the server had already closed re-created the stream id; the new stream stays in the server's table"] = true
 	}
 	if obs.CloserFlush != "ErrStreamClosed" {
 		or["final: Flush on the closing end after Close returned "+obs.CloserFlush] = true
@@ -471,7 +489,11 @@ func TestVerif_C10(t *testing.T) {
 	}
 	emit(c10Case{Mode: "callback", Scenario: "inside"})
 	emit(c10Case{Mode: "callback", Scenario: "during"})
-	emit(c10Case{Mode: "sync", Scenario: "inflight-to-closed"})
+	{
+		c := c10GhostCase(c10Case{ID: id, Mode: "callback", Scenario: "inflight-to-closed"})
+		id++
+		o.emit(c)
+	}
 	// generated
 	for k := 0; k < n; k++ {
 		c := c10Case{}
@@ -489,6 +511,79 @@ func TestVerif_C10(t *testing.T) {
 		emit(c)
 	}
 	t.Logf("emitted %d cases", id)
+}
+
+// c10GhostCase: deterministic reproduction of "data in flight to a stream the server already closed".
+// The server's event loop is held inside OnNewStream of a second stream; meanwhile the client flushes one
+// more message on stream 1 (the element waits in the queue) and the server's user closes stream 1; then
+// the event loop is released and finds an element for an id that is no longer in its table.
+func c10GhostCase(c c10Case) c10Case {
+	client, server, l := c10Pair(true, func(s *Stream) *c10Cb { return &c10Cb{} })
+	defer func() {
+		client.Close()
+		server.Close()
+	}()
+	fail := func(m string) c10Case { c.Oracle = append(c.Oracle, "setup: "+m); return c }
+	cs, err := client.OpenStream()
+	if err != nil {
+		return fail("OpenStream")
+	}
+	ccb := &c10Cb{stream: cs}
+	_ = cs.SetCallbacks(ccb)
+	if c10Flush(cs, []byte{1, 2, 3}) != nil {
+		return fail("first Flush")
+	}
+	var ss *Stream
+	select {
+	case ss = <-l.ch:
+		<-l.cb
+	case <-time.After(c10Wait):
+		return fail("server never saw stream 1")
+	}
+	atomic.StoreInt32(&l.blockAt, 2)
+	cs2, _ := client.OpenStream()
+	_ = cs2.SetCallbacks(&c10Cb{stream: cs2})
+	if c10Flush(cs2, []byte{4}) != nil {
+		return fail("Flush on stream 2")
+	}
+	select {
+	case <-l.entered:
+	case <-time.After(c10Wait):
+		return fail("event loop never entered OnNewStream of stream 2")
+	}
+	// in flight: one more message for stream 1; then the server closes stream 1
+	if c10Flush(cs, []byte{30, 31}) != nil {
+		return fail("in-flight Flush")
+	}
+	_ = ss.Close()
+	close(l.release)
+	// the client learns about the close and closes its end; stream 2 is closed on both ends
+	c10WaitFor(c10Wait, func() bool { return atomic.LoadInt32(&ccb.remote) >= 1 })
+	_ = cs.Close()
+	var ss2 *Stream
+	select {
+	case ss2 = <-l.ch:
+		<-l.cb
+	case <-time.After(c10Wait):
+	}
+	_ = cs2.Close()
+	if ss2 != nil {
+		_ = ss2.Close()
+	}
+	c10WaitFor(time.Second, func() bool { return server.GetActiveStreamCount() == 0 })
+	g := server.getStreamById(cs.id)
+	c.Obs.Ghost = g != nil && g != ss
+	c.Obs.CloserActive = server.GetActiveStreamCount()
+	c.Obs.CloserState = atomic.LoadUint32(&ss.state)
+	c.Obs.PeerState = atomic.LoadUint32(&cs.state)
+	c.Obs.PeerActive2 = client.GetActiveStreamCount()
+	if c.Obs.Ghost {
+		c.Oracle = append(c.Oracle, fmt.Sprintf("ghost: data in flight to a stream the server had already closed re-created the stream id; the new stream stays in the server's table (active=%d, its state=%d, OnNewStream calls=%d)",
+			c.Obs.CloserActive, atomic.LoadUint32(&g.state), atomic.LoadInt32(&l.calls)))
+	} else if c.Obs.CloserActive != 0 {
+		c.Oracle = append(c.Oracle, "final: the closed stream still counts as active on the closing end")
+	}
+	return c
 }
 
 // ---- mechanism S: closer-heavy configurations on the controlled scheduler ----
